@@ -30,6 +30,7 @@ def run(ck):
     ck.assumptions += ["serde_json produces valid JSON for every input it accepts", "field names/values reach the visitor as C10 establishes"]
     ck.rule("C14.R1", "only the serializer writes record content; one terminating newline; every collected field serialised", floor=6)
     ck.rule("C14.R2", "later record calls merge into the stored object (owned keys); replaced only on success", floor=6)
+    ck.rule("C14.R6", "what the JSON formatter is handed is what was written: every field form of the macros pairs name, position and %/? sigil with the value (as C10.R2)", floor=300)
     ck.rule("C14.R5", "each JSON record reaches the writer whole: one write_all of the complete buffer, into a buffer cleared first (as C13.R1/R2)", floor=10)
     ck.rule("C14.R4", "a later record updates the span's stored fields under one write lock (read-merge-store is atomic)", floor=1)
     ck.rule("C14.R3", "span list is root to leaf", floor=1)
@@ -39,6 +40,8 @@ def run(ck):
     r4(ck, F)
     from rules import C13
     C13.r1_r2(ck, F, r1id="C14.R5", r2id="C14.R5")
+    from rules import C10
+    C10.valueset_rule(ck, "C14.R6")
 
 
 def r1(ck, F):
